@@ -360,7 +360,11 @@ fn cmd_replay(args: &[String]) {
             let got: Vec<String> = out.violations.iter().map(|v| v.kind.clone()).collect();
             let hashes_want: Vec<String> = j.a("trace_hashes").iter().filter_map(|x| x.as_str().map(str::to_string)).collect();
             let hashes_got: Vec<String> = recs.iter().map(|r| format!("{:016x}", r.trace_hash)).collect();
-            want == got && (hashes_want.is_empty() || hashes_want == hashes_got)
+            if j.b("engine_nondeterministic") {
+                want.iter().all(|k| got.contains(k))
+            } else {
+                want == got && (hashes_want.is_empty() || hashes_want == hashes_got)
+            }
         });
     println!("{}", res.to_string());
     if !out.violations.is_empty() {
@@ -391,9 +395,19 @@ fn cmd_shrink(args: &[String]) {
         && out.violations == out2.violations;
     // For C16 a second execution in the same process is not expected to be identical when
     // the property is violated (that is the violation); candidates are judged in fresh processes.
+    // If the explicit plan does not reproduce the run although nothing else changed, the ENGINE
+    // under test is nondeterministic (the harness is proved deterministic separately). That is
+    // tolerated as long as the violation kind persists; the replay file says so and is then
+    // judged by kind, not by trace hash.
+    let mut nondet = false;
     if !same && prop != "C16" {
-        println!("{}", J::obj().set("shrink", "explicit_plan_diverged").to_string());
-        std::process::exit(2);
+        let wanted = args.get(7).cloned().unwrap_or_else(|| out.violations[0].kind.clone());
+        if out2.violations.iter().any(|v| v.kind == wanted) {
+            nondet = true;
+        } else {
+            println!("{}", J::obj().set("shrink", "explicit_plan_diverged").to_string());
+            std::process::exit(2);
+        }
     }
     let target = match args.get(7) {
         Some(k) if out.violations.iter().any(|v| &v.kind == k) => k.clone(),
@@ -414,8 +428,20 @@ fn cmd_shrink(args: &[String]) {
         }
     }
     let mut j = replay_file_json(prop, &min_plans, &out3, &recs3);
-    if prop == "C16" {
+    if prop == "C16" || nondet {
         j.put("trace_hashes", Vec::<String>::new());
+    }
+    if nondet {
+        j.put("engine_nondeterministic", true);
+        j.put(
+            "violations",
+            out3.violations
+                .iter()
+                .filter(|v| v.kind == target)
+                .take(1)
+                .map(props::Violation::to_json)
+                .collect::<Vec<_>>(),
+        );
     }
     let j = j
         .set("seed", seed)
